@@ -143,8 +143,9 @@ def run_crit(case, ctx):
         vtol = 1e-9 * (1.0 if tkind not in ("tiny", "huge") else max(ymax, 1e-300))
         cfg = {"n": n, "target": tkind, "weights": wkind, "order": okind, "d": d, "design": xk}
         crits = {"simple": SimpleRegressorCriterion(1, n), "fast": SimpleRegressorCriterionFast(1, n)}
-        if wkind == "unit":
-            crits["linear"] = LinearRegressorCriterion(1, X)
+        # the linear criterion: impurities are specified for unit weights only, the node value (weighted mean) always
+        crits["linear"] = LinearRegressorCriterion(1, X)
+        lin_full = wkind == "unit"
         if case["exhaustive"]:
             ranges = [(s, e) for s in range(n) for e in range(s + 1, n + 1)]
         else:
@@ -170,8 +171,11 @@ def run_crit(case, ctx):
                     # keeps per position must be rewritten by the init under test
                     order2 = rng.permutation(n).astype(numpy.intp)
                     w2 = rng.rand(n) + 0.5
-                    cm._test_criterion_init(c, ys, w2 if name != "linear" else numpy.ones(n),
-                                            float(w2.sum()) if name != "linear" else float(n), order2, s0, e0)
+                    if name == "linear":
+                        # no weights at all (None) in the earlier life of the object, or unit weights
+                        cm._test_criterion_init(c, ys, None if (s0 + e0) % 2 else numpy.ones(n), float(n), order2, s0, e0)
+                    else:
+                        cm._test_criterion_init(c, ys, w2, float(w2.sum()), order2, s0, e0)
                     cm._test_criterion_update(c, int(rng.randint(s0, e0 + 1)))
                 try:
                     cm._test_criterion_init(c, ys, w, W, order, s, e)
@@ -184,6 +188,9 @@ def run_crit(case, ctx):
                 if not close(val, m, atol ** 0.5 * 1e-3 + vtol + 1e-9 * abs(m)):
                     ctx.violation(K + "node-value", "range [%d,%d): node value %r, weighted mean %r" % (s, e, val, m),
                                   cfg=cfg)
+                if name == "linear" and not lin_full:
+                    ctx.hit("crit.linear.node_value_weighted")
+                    continue          # with weights only the node value is specified for this criterion
                 if name == "linear":
                     exp_imp = lin_mse(X_o[s:e], ys_o[s:e], d + 1)
                 else:
@@ -347,11 +354,31 @@ def run_tree(case, ctx):
             ctx.violation(K + "predict-raised/%s/%s" % (vname, type(e).__name__), str(e)[:150], cfg=cfg)
             continue
         ctx.hit("tree.query_containers")
-        if not numpy.allclose(pa, pb, rtol=1e-5 if vname == "float32" else 1e-12, atol=1e-6 if vname == "float32"
-                              else 1e-12):
+        # (another memory order changes the order of the floating-point sums of the per-leaf dot products: with
+        # features of 1e9 the last bits of a prediction of order 1 move by 1e-11)
+        slack = 1e-9 * (1.0 + float(numpy.abs(pb).max()))
+        if not numpy.allclose(pa, pb, rtol=1e-5 if vname == "float32" else 1e-9, atol=1e-6 if vname == "float32"
+                              else slack):
             ctx.violation(K + "predict-depends-on-container/%s" % vname,
                           "predict on a %s batch differs from predict on the same values as float64 by %.3g" % (
                               vname, float(numpy.abs(pa - pb).max())), cfg=cfg)
+    # a shallow copy of the fitted model is fitted on other targets (same rows, so usually the same number of leaves):
+    # the model itself keeps its per-leaf regressions - fit binds new arrays, it does not refill shared ones
+    if crit == "mselin" and n >= 5:
+        import copy as _copy
+        try:
+            keepP = numpy.array(pred, copy=True)
+            other = _copy.copy(m)
+            other.fit(Xfit, yfit * 1.5 + 0.3 * numpy.asarray(X[:, 0], dtype=float) + 1.0)
+            ctx.hit("tree.shallow_copy_refit")
+            ctx.extra["shallow_copy_same_leaf_count"] = ctx.extra.get("shallow_copy_same_leaf_count", 0) + int(
+                other.tree_.n_leaves == m.tree_.n_leaves)
+            if not numpy.array_equal(m.predict(X), keepP):
+                ctx.violation(K + "changed-by-refit-of-shallow-copy", "fitting copy.copy(model) on other targets changed "
+                              "the predictions of the model itself (shared per-leaf coefficients refilled in place)",
+                              cfg=cfg)
+        except Exception as e:
+            ctx.violation(K + "raised/%s/shallow-copy" % type(e).__name__, str(e)[:150], cfg=cfg)
     scale = 1e-9 * (1 + numpy.abs(y).max())
     for l in leaves:
         rows = leaf == l
